@@ -48,7 +48,7 @@ SPEC = PropSpec(
     ],
 )
 
-NTYPES = 3
+NTYPES = 4
 
 # ----------------------------------------------------------------------------- runner (subprocess)
 
@@ -80,7 +80,10 @@ class Hist:
 
     def ty(self, k):
         if k not in self.types:
-            self.types[k] = type("Req_%d_%d" % (self.n, k), (Request,), {})
+            # type 3 is a SUBCLASS of type 0 (defined at its first use, possibly after defaults / overrides for type 0
+            # exist): a request type of its own — handlers and defaults of an ancestor type do not serve it
+            base = self.ty(0) if k == 3 else Request
+            self.types[k] = type("Req_%d_%d" % (self.n, k), (base,), {})
         return self.types[k]
 
     def hs(self, pairs):
